@@ -30,7 +30,14 @@ import (
 )
 
 const verifDir = "/verif"
-const repoDir = "/repo"
+// repoDir is /repo; VERIF_REPO overrides it for development against a scratch
+// worktree (never used by the registered commands).
+var repoDir = func() string {
+	if r := os.Getenv("VERIF_REPO"); r != "" {
+		return r
+	}
+	return "/repo"
+}()
 
 type propCfg struct {
 	Area      string
